@@ -23,6 +23,10 @@ class Scripted:
         self.calls.append(("perm",))
         return np.asarray(M)[np.array(self.perm, dtype=int)]
 
+# case kinds of corpus/ entries (failing inputs of past regressions) that this module replays on every run
+CORPUS_KINDS = ('poll_run', 'dirs')
+
+
 
 def outcomes(D, nmax, rng, limit):
     lower = [(i, j) for i in range(D) for j in range(i)]
@@ -47,7 +51,7 @@ def outcomes(D, nmax, rng, limit):
     return exhaustive
 
 
-def function_level(ctx, rep):
+def function_level(ctx, rep, only=None):
     pm = sys.modules.get("pybads.poll.poll_mads_2n")
     if pm is None:
         import pybads.poll  # noqa
@@ -70,6 +74,8 @@ def function_level(ctx, rep):
                 sms = ms * ratio
                 ps = np.array([rng.choice([1.0, 0.5, 2.0, 1.0 / 3.0, 0.7]) for _ in range(D)])
                 cases.append((D, sms, ms, ps, mat, sg, perm))
+    if only is not None:
+        cases = [(c["D"], c["sms"], c["ms"], np.array(c["poll_scale"], dtype=float), c["draw"], c["sgn"], c["perm"]) for c in only]
     old = (np.random.randint, np.random.permutation)
     impl = []
     try:
@@ -209,6 +215,8 @@ def replay(ctx, data):
         ctx._pool = [tracer.run_traced(c["spec"])]
         ctx._replaying = True
         run_level(ctx, rep)
+    elif c.get("kind") == "dirs" and "draw" in c:
+        function_level(ctx, rep, only=[c])
     else:
         function_level(ctx, rep)
     return rep
